@@ -445,7 +445,7 @@ class _UnknownStrategy(ReplicationStrategy):
         """
         if self.options_map:
             return dict((str(key), str(value)) for key, value in self.options_map.items())
-        return "{'class': '%s'}" % (self.name, )
+        return "{'class': %s}" % (protect_value(str(self.name)), )
 
     def make_token_replica_map(self, token_to_host_owner, ring):
         return {}
@@ -547,8 +547,8 @@ class SimpleStrategy(ReplicationStrategy):
         Returns a string version of these replication options which are
         suitable for use in a CREATE KEYSPACE statement.
         """
-        return "{'class': 'SimpleStrategy', 'replication_factor': '%s'}" \
-               % (str(self.replication_factor_info),)
+        return "{'class': 'SimpleStrategy', 'replication_factor': %s}" \
+               % (protect_value(str(self.replication_factor_info)),)
 
     def __eq__(self, other):
         if not isinstance(other, SimpleStrategy):
@@ -663,7 +663,7 @@ class NetworkTopologyStrategy(ReplicationStrategy):
         """
         ret = "{'class': 'NetworkTopologyStrategy'"
         for dc, rf in sorted(self.dc_replication_factors_info.items()):
-            ret += ", '%s': '%s'" % (dc, str(rf))
+            ret += ", %s: %s" % (protect_value(str(dc)), protect_value(str(rf)))
         return ret + "}"
 
     def __eq__(self, other):
@@ -821,7 +821,7 @@ class KeyspaceMetadata(object):
             self.replication_strategy.export_for_schema())
         ret = ret + (' AND durable_writes = %s' % ("true" if self.durable_writes else "false"))
         if self.graph_engine is not None:
-            ret = ret + (" AND graph_engine = '%s'" % self.graph_engine)
+            ret = ret + (" AND graph_engine = %s" % protect_value(str(self.graph_engine)))
         return ret
 
     def user_type_strings(self):
@@ -1426,7 +1426,7 @@ class TableMetadata(object):
         value = options_copy.pop("compaction_strategy_class", None)
         actual_options.setdefault("class", value)
 
-        compaction_option_strings = ["'%s': '%s'" % (k, v) for k, v in actual_options.items()]
+        compaction_option_strings = ["%s: %s" % (protect_value(str(k)), protect_value(str(v))) for k, v in actual_options.items()]
         ret.append('compaction = {%s}' % ', '.join(compaction_option_strings))
 
         for system_table_name in cls.compaction_options.keys():
@@ -1435,7 +1435,7 @@ class TableMetadata(object):
 
         if not options_copy.get('compression'):
             params = json.loads(options_copy.pop('compression_parameters', '{}'))
-            param_strings = ["'%s': '%s'" % (k, v) for k, v in params.items()]
+            param_strings = ["%s: %s" % (protect_value(str(k)), protect_value(str(v))) for k, v in params.items()]
             ret.append('compression = {%s}' % ', '.join(param_strings))
 
         for name, value in options_copy.items():
@@ -1472,7 +1472,7 @@ class TableMetadataV3(TableMetadata):
             value = options_copy.get(option)
             if isinstance(value, Mapping):
                 del options_copy[option]
-                params = ("'%s': '%s'" % (k, v) for k, v in value.items())
+                params = ("%s: %s" % (protect_value(str(k)), protect_value(str(v))) for k, v in value.items())
                 ret.append("%s = {%s}" % (option, ', '.join(params)))
 
         for name, value in options_copy.items():
@@ -1682,12 +1682,12 @@ class IndexMetadata(object):
                 index_target)
         else:
             class_name = options.pop("class_name")
-            ret = "CREATE CUSTOM INDEX %s ON %s.%s (%s) USING '%s'" % (
+            ret = "CREATE CUSTOM INDEX %s ON %s.%s (%s) USING %s" % (
                 protect_name(self.name),
                 protect_name(self.keyspace_name),
                 protect_name(self.table_name),
                 index_target,
-                class_name)
+                protect_value(str(class_name)))
             if options:
                 # PYTHON-1008: `ret` will always be a unicode
                 opts_cql_encoded = _encoder.cql_encode_all_types(options, as_text_type=True)
